@@ -388,6 +388,12 @@ func histOracle(h *histRun, r *vsched.Result) []vsched.Violation {
 	return append(vs, histTail(h, ref, ended, count)...)
 }
 
+// stopBehindExhaustion: a stop request is queued behind the panic that exceeds max restarts.
+func stopBehindExhaustion(hist string, maxRestarts int) bool {
+	ref := refHistory(hist, maxRestarts)
+	return ref.exhausted && strings.IndexAny(hist[ref.termIdx:], "PS") >= 0
+}
+
 // crashBehindPoison: a message that panics is queued behind a graceful pill.
 func crashBehindPoison(hist string) bool {
 	p := strings.IndexByte(hist, 'P')
@@ -577,10 +583,43 @@ func init() {
 		Register(&Job{Name: fmt.Sprintf("C07/hist/crash-then-stop-mode%d", mode), Prop: "C07", Bound: 1, BoundT: 2, Budget: 40, BudgetT: 600,
 			Desc: fmt.Sprintf("%d histories over {m,x,P,S} of length<=4 with one crash and one stop request, the crash in front of the request or behind a non-graceful Stop", len(crashClean)),
 			Make: func() vsched.Instance { return histInstance(crashClean, histOracle) }})
+		var behindEx []histParams
+		for _, r := range []int{0, 1} {
+			for _, h := range allHists("mXPS", 3, func(h string) bool { return countAny(h, "PS") == 1 && stopBehindExhaustion(h, r) }) {
+				behindEx = append(behindEx, histParams{Hist: h, MaxRestarts: r, Mode: mode, Late: true})
+			}
+		}
+		Register(&Job{Name: fmt.Sprintf("C07/hist/stop-behind-max-restarts-mode%d", mode), Prop: "C07", Family: "trigger:D3", Bound: 1, BoundT: 2, Budget: 40, BudgetT: 600,
+			Desc: fmt.Sprintf("%d histories over {m,X,P,S} of length<=3 (MaxRestarts 0,1) in which a stop request is queued behind the panic that exceeds max restarts", len(behindEx)),
+			Make: func() vsched.Instance { return histInstance(behindEx, histOracle) }})
 		crashD4 := mk(allHists("mxP", 3, func(h string) bool { return oneEach(h) && isD4(h) }), histParams{MaxRestarts: 3, Mode: mode, Late: true})
 		Register(&Job{Name: fmt.Sprintf("C07/hist/crash-behind-poison-mode%d", mode), Prop: "C07", Family: "trigger:D4", Bound: 1, BoundT: 2, Budget: 40, BudgetT: 600,
 			Desc: fmt.Sprintf("%d histories over {m,x,P} of length<=3 in which a message that panics is queued behind a graceful poison pill (crash while draining)", len(crashD4)),
 			Make: func() vsched.Instance { return histInstance(crashD4, histOracle) }})
+	}
+	// C04: lifecycle protocol over all mixed histories (clean: at most one stop request, no crash
+	// behind a graceful pill - those are the trigger families of D3/D4 under C07).
+	for _, mode := range []int{0, 1} {
+		keep := func(h string) bool { return countAny(h, "PS") <= 1 && !crashBehindPoison(h) }
+		var vq, vt []histParams
+		for _, r := range []int{0, 1, 2} {
+			for _, h := range allHists("mxXPS", 3, keep) {
+				if !stopBehindExhaustion(h, r) {
+					vq = append(vq, histParams{Hist: h, MaxRestarts: r, Mode: mode, Late: true})
+				}
+			}
+			for _, h := range allHists("mxXPS", 4, keep) {
+				if !stopBehindExhaustion(h, r) {
+					vt = append(vt, histParams{Hist: h, MaxRestarts: r, Mode: mode, Late: true, Delay: r == 1})
+				}
+			}
+		}
+		Register(&Job{Name: fmt.Sprintf("C04/hist/mixed-len3-mode%d", mode), Prop: "C04", Bound: 1, BoundT: 2, Budget: 40, BudgetT: 600,
+			Desc: fmt.Sprintf("%d (history, MaxRestarts 0..2) pairs: all histories over {m,x,X,P,S} of length<=3 with at most one stop request and no crash behind a graceful pill; per-incarnation protocol, exactly-once, order, final registry state, late probe", len(vq)),
+			Make: func() vsched.Instance { return histInstance(vq, histOracle) }})
+		Register(&Job{Name: fmt.Sprintf("C04/hist/mixed-len4-mode%d", mode), Prop: "C04", Tier: "thorough", Bound: 1, BoundT: 1, Budget: 40, BudgetT: 900,
+			Desc: fmt.Sprintf("%d (history, MaxRestarts 0..2) pairs over {m,x,X,P,S} of length<=4", len(vt)),
+			Make: func() vsched.Instance { return histInstance(vt, histOracle) }})
 	}
 	// C13: middleware chains of length 1..3 on every lifecycle path.
 	for n := 1; n <= 3; n++ {
